@@ -41,6 +41,42 @@ Definition sides_ok_upto (c : N) : bool :=
   forallb (fun i => sides_ok (N.of_nat i) c) (seq 0 (N.to_nat c)).
 
 
+(* ------------------------------------------------------------------ ranges of the RFC recursion *)
+(* ranges met by the RFC recursion: aligned to the next power of two of their length, and either
+   a suffix of the tree or a complete perfect block *)
+Definition valid (c off n : N) : Prop :=
+  (exists a, off = a * 2 ^ N.log2_up n) /\ (off + n = c \/ (n = 2 ^ N.log2_up n /\ off + n <= c)).
+
+Lemma valid_le c off n : valid c off n -> off + n <= c.
+Proof. intros [_ [H|[_ H]]]; lia. Qed.
+
+Lemma log2_up_split n : 2 <= n -> N.log2_up n = N.log2 (n - 1) + 1.
+Proof. intros H. rewrite N.log2_up_eqn by lia. rewrite N.sub_1_r. lia. Qed.
+
+Lemma valid_left c off n : valid c off n -> 2 <= n -> valid c off (2 ^ N.log2 (n - 1)).
+Proof.
+  intros [[a Ha] Hd] H2. pose proof (splitN_spec n H2) as Hk. rewrite log2_up_split in Ha by exact H2.
+  set (m := N.log2 (n - 1)) in *. unfold valid. rewrite N.log2_up_pow2 by lia. split.
+  - exists (2 * a). rewrite Ha, p2S. lia.
+  - right. split; [reflexivity|]. destruct Hd as [Hd|[_ Hd]]; lia.
+Qed.
+
+Lemma valid_right c off n : valid c off n -> 2 <= n ->
+  valid c (off + 2 ^ N.log2 (n - 1)) (n - 2 ^ N.log2 (n - 1)).
+Proof.
+  intros [[a Ha] Hd] H2. pose proof (splitN_spec n H2) as Hk. rewrite log2_up_split in Ha, Hd by exact H2.
+  set (m := N.log2 (n - 1)) in *. pose proof (pow2_pos m) as Hk0. unfold valid.
+  assert (HH : N.log2_up (n - 2 ^ m) <= m).
+  { rewrite <- (N.log2_up_pow2 m) at 2 by lia. apply N.log2_up_le_mono. lia. }
+  split.
+  - exists ((2 * a + 1) * 2 ^ (m - N.log2_up (n - 2 ^ m))).
+    rewrite <- N.mul_assoc, <- N.pow_add_r. replace (m - N.log2_up (n - 2 ^ m) + N.log2_up (n - 2 ^ m)) with m by lia.
+    rewrite Ha, p2S. lia.
+  - destruct Hd as [Hd|[Hn Hd]]; [left; lia|]. right. rewrite p2S in Hn.
+    replace (n - 2 ^ m) with (2 ^ m) by lia. rewrite N.log2_up_pow2 by lia. split; [reflexivity | lia].
+Qed.
+
+
 Section Prove.
   Context {D : Type}.
   Variables (leaf_sum : bytes -> D) (node_sum : D -> D -> D) (empty_sum : D).
@@ -242,41 +278,7 @@ Section Prove.
     Hypothesis HL1 : forall a h, (a + 1) * 2 ^ h <= c -> lookup sc st (key a h) = Some (MTH (blk a h ls)).
     Hypothesis HL2 : forall a H, imperf a H c -> lookup sc st (key a H) = Some (MTH (skipn (N.to_nat (a * 2 ^ H)) ls)).
 
-    (* ranges met by the RFC recursion: aligned to the next power of two of their length, and either
-       a suffix of the tree or a complete perfect block *)
-    Definition valid (off n : N) : Prop :=
-      (exists a, off = a * 2 ^ N.log2_up n) /\ (off + n = c \/ (n = 2 ^ N.log2_up n /\ off + n <= c)).
-
-    Lemma valid_le off n : valid off n -> off + n <= c.
-    Proof. intros [_ [H|[_ H]]]; lia. Qed.
-
-    Lemma log2_up_split n : 2 <= n -> N.log2_up n = N.log2 (n - 1) + 1.
-    Proof. intros H. rewrite N.log2_up_eqn by lia. rewrite N.sub_1_r. lia. Qed.
-
-    Lemma valid_left off n : valid off n -> 2 <= n -> valid off (2 ^ N.log2 (n - 1)).
-    Proof.
-      intros [[a Ha] Hd] H2. pose proof (splitN_spec n H2) as Hk. rewrite log2_up_split in Ha by exact H2.
-      set (m := N.log2 (n - 1)) in *. unfold valid. rewrite N.log2_up_pow2 by lia. split.
-      - exists (2 * a). rewrite Ha, p2S. lia.
-      - right. split; [reflexivity|]. destruct Hd as [Hd|[_ Hd]]; lia.
-    Qed.
-
-    Lemma valid_right off n : valid off n -> 2 <= n ->
-      valid (off + 2 ^ N.log2 (n - 1)) (n - 2 ^ N.log2 (n - 1)).
-    Proof.
-      intros [[a Ha] Hd] H2. pose proof (splitN_spec n H2) as Hk. rewrite log2_up_split in Ha, Hd by exact H2.
-      set (m := N.log2 (n - 1)) in *. pose proof (pow2_pos m) as Hk0. unfold valid.
-      assert (HH : N.log2_up (n - 2 ^ m) <= m).
-      { rewrite <- (N.log2_up_pow2 m) at 2 by lia. apply N.log2_up_le_mono. lia. }
-      split.
-      - exists ((2 * a + 1) * 2 ^ (m - N.log2_up (n - 2 ^ m))).
-        rewrite <- N.mul_assoc, <- N.pow_add_r. replace (m - N.log2_up (n - 2 ^ m) + N.log2_up (n - 2 ^ m)) with m by lia.
-        rewrite Ha, p2S. lia.
-      - destruct Hd as [Hd|[Hn Hd]]; [left; lia|]. right. rewrite p2S in Hn.
-        replace (n - 2 ^ m) with (2 ^ m) by lia. rewrite N.log2_up_pow2 by lia. split; [reflexivity | lia].
-    Qed.
-
-    Lemma sib_lookup s r : valid s r -> 0 < r -> lookup sc st (rkey s r) = Some (MTH (rng s r ls)).
+    Lemma sib_lookup s r : valid c s r -> 0 < r -> lookup sc st (rkey s r) = Some (MTH (rng s r ls)).
     Proof.
       intros [[a Ha] Hd] Hr. unfold rkey. set (H := N.log2_up r) in *. pose proof (pow2_pos H) as HW.
       assert (Ediv : s / 2 ^ H = a) by (rewrite Ha; apply N.div_mul; lia). rewrite Ediv.
@@ -294,16 +296,16 @@ Section Prove.
     Qed.
 
     Lemma sides_path : forall (fuel : nat) off i n acc,
-      i < n -> N.log2_up n < N.of_nat fuel -> valid off n ->
+      i < n -> N.log2_up n < N.of_nat fuel -> valid c off n ->
       collect_sides sc st (spec_sides_f fuel off i n) acc = inr (acc ++ PATH (N.to_nat i) (rng off n ls)).
     Proof.
       induction fuel as [|f IH]; intros off i n acc Hi Hf Hv; [lia|].
-      cbn [spec_sides_f]. pose proof (valid_le _ _ Hv) as Hle.
+      cbn [spec_sides_f]. pose proof (valid_le _ _ _ Hv) as Hle.
       pose proof (rng_length off n ls Hle) as Hlen.
       destruct (N.leb_spec n 1) as [Hn1|Hn2].
       { rewrite PATH_small by lia. rewrite app_nil_r. reflexivity. }
       assert (H2 : 2 <= n) by lia. pose proof (splitN_spec n H2) as Hk.
-      pose proof (valid_left _ _ Hv H2) as Hvl. pose proof (valid_right _ _ Hv H2) as Hvr.
+      pose proof (valid_left _ _ _ Hv H2) as Hvl. pose proof (valid_right _ _ _ Hv H2) as Hvr.
       rewrite (PATH_unfold leaf_sum node_sum empty_sum _ (rng off n ls)) by lia. cbn zeta.
       rewrite Hlen, split_k_bridge by exact H2.
       rewrite log2_up_split in Hf by exact H2.
